@@ -36,13 +36,35 @@ def main(argv=None):
     else:
         ok, log = C.build(clean=(a.tier == 'thorough' and os.environ.get('VERIF_CLEAN') == '1'))
     needed = getattr(mod, 'NEEDS', [])
+    # A translator that REFUSED the current source (a construct outside its subset: it wrote its stub) says nothing about behaviour.
+    # For the properties whose hand-written model is itself tied to the code by a full correspondence check (GEN_SOFT), the run then
+    # falls back to that tie alone: the theorems about the hand model are re-checked, the correspondence runs on a larger sample, and
+    # the evidence records that the translated-source theorems were not available. A translator that ACCEPTED the source and whose
+    # equivalence proof no longer checks is a broken obligation as before.
+    soft = getattr(mod, 'GEN_SOFT', None)
+    refused = []
+    if soft:
+        for gf in soft['generated']:
+            try:
+                if 'translator_failed' in (C.THEORIES / f'{gf}.v').read_text():
+                    refused.append(gf)
+            except OSError:
+                pass
+    variant = ''
+    if refused:
+        needed = [n for n in needed if n not in soft['modules']]
+        variant = 'base'
+        os.environ['VERIF_TRANSLATOR_REFUSED'] = '1'
+        run.coverage['translator_refused'] = dict(generated_files=refused, fallback='hand-written model theorems (Properties/%sbase.v) + '
+                                                  'model/implementation correspondence on a 3x sample; translated-source theorems not checked on this run' % pid)
+        print(f'NOTE: property={pid} the source translator refused the current source ({", ".join(refused)}); deciding with the hand-written model and its correspondence')
     skipped = log == 'build skipped'       # developer mode (VERIF_NOBUILD=1): only the existence of the compiled files is required
     missing = [n for n in needed if not (C.THEORIES / f'{n}.vo').exists()
                or (not skipped and (C.THEORIES / f'{n}.vo').stat().st_mtime < (C.THEORIES / f'{n}.v').stat().st_mtime)]
     run.oblige('build: ' + ', '.join(needed), not missing, ('not built: ' + ', '.join(missing) + '\n' + log[-1500:]) if missing else '')
 
     # 3. the property's theorems, re-checked, with Print Assumptions under each
-    ob = C.property_obligations(pid)
+    ob = C.property_obligations(pid, variant)
     if not ob['theorems']:
         run.oblige(f'Properties/{pid}.v', False, ob['log'])
     for t in ob['theorems']:
